@@ -4,10 +4,12 @@ package actionlint
 
 import (
 	"bytes"
-	"strconv"
+	"github.com/fatih/color"
 	"io"
 	"os"
 	"path/filepath"
+	"runtime"
+	"strconv"
 	"strings"
 )
 
@@ -33,10 +35,12 @@ func verifC10NativeMulti(lab string, ord []int) {
 	}
 	must(os.WriteFile(filepath.Join(tmp, "r", ".github", "actionlint.yaml"), []byte("self-hosted-runner:\n  labels:\n    - zr\n    - lr\nconfig-variables:\n  - V\n"), 0o644))
 	must(os.WriteFile(filepath.Join(tmp, "s", ".github", "actionlint.yaml"), []byte("self-hosted-runner:\n  labels:\n    - zs\n    - ls\n"), 0o644))
-	paths := []string{filepath.Join(tmp, "r", ".github", "workflows", "a.yml"), filepath.Join(tmp, "s", ".github", "workflows", "b.yml"), filepath.Join(tmp, "r", ".github", "workflows", "c.yml")}
+	must(os.MkdirAll(filepath.Join(tmp, "o"), 0o755))
+	paths := []string{filepath.Join(tmp, "r", ".github", "workflows", "a.yml"), filepath.Join(tmp, "s", ".github", "workflows", "b.yml"), filepath.Join(tmp, "r", ".github", "workflows", "c.yml"), filepath.Join(tmp, "o", "w.yml")}
 	must(os.WriteFile(paths[0], wf(lab), 0o644))
 	must(os.WriteFile(paths[1], wf(lab), 0o644))
 	must(os.WriteFile(paths[2], wf("lr"), 0o644))
+	must(os.WriteFile(paths[3], wf("lr"), 0o644))
 	old, _ := os.Getwd()
 	defer os.Chdir(old)
 	must(os.Chdir("/"))
@@ -48,23 +52,39 @@ func verifC10NativeMulti(lab string, ord []int) {
 		verifCheck(err == nil, "lint-failed")
 		single[k] = verifC10DigestAll(errs)
 	}
+	// the argument list: the chosen order, 8 times over with copies of the files (a real
+	// scheduler needs some load before goroutines of different files overlap)
 	var args []string
-	for _, k := range ord {
-		args = append(args, paths[k])
+	var kind []int
+	for c := 0; c < 8; c++ {
+		for _, k := range ord {
+			p := paths[k]
+			if c > 0 {
+				p = filepath.Join(filepath.Dir(p), "copy"+strconv.Itoa(c)+"-"+filepath.Base(p))
+				b, err := os.ReadFile(paths[k])
+				must(err)
+				must(os.WriteFile(p, b, 0o644))
+			}
+			args = append(args, p)
+			kind = append(kind, k)
+		}
 	}
+	defer runtime.GOMAXPROCS(runtime.GOMAXPROCS(0))
 	for rep := 0; rep < 20; rep++ {
+		// degree of parallelism: one processor (goroutines run only when the starter blocks), two, all
+		runtime.GOMAXPROCS([]int{1, 2, runtime.NumCPU()}[rep%3])
 		l, err := NewLinter(io.Discard, &LinterOptions{})
 		must(err)
 		errs, err := l.LintFiles(args, nil)
 		verifCheck(err == nil, "lint-failed")
-		for _, k := range ord {
+		for n, p := range args {
 			var mine []*Error
 			for _, e := range errs {
-				if filepath.Base(e.Filepath) == filepath.Base(paths[k]) {
+				if filepath.Base(e.Filepath) == filepath.Base(p) {
 					mine = append(mine, e)
 				}
 			}
-			verifCheckf(verifC10DigestAll(mine) == single[k], "file-linted-together-differs-from-file-linted-alone", paths[k])
+			verifCheckf(verifC10DigestAll(mine) == single[kind[n]], "file-linted-together-differs-from-file-linted-alone", p)
 		}
 	}
 	verifReach("linted")
@@ -171,9 +191,11 @@ func verifC10NativeFindProject(gs, ws, gr, wr int, want string) {
 	verifCheckf(got == want, "file-assigned-to-the-wrong-repository", got+" <> "+want)
 }
 
-// verifC02NativeFormat: three real files with a custom format; the first file
-// is slow to check (400 jobs), so its goroutine finishes last. 10 runs: the
-// formatted stream lists the files in argument order every time.
+// verifC02NativeFormat: two real repositories (r ignores the diagnostic of its
+// a.yml by configuration, s has no configuration), three files with a custom
+// format; the first file is slow to check (400 jobs), so its goroutine finishes
+// last. 10 runs: the result equals the files linted alone, and the formatted
+// stream lists the files in argument order every time.
 func verifC02NativeFormat() {
 	tmp, err := os.MkdirTemp("", "verif-c02f-")
 	if err != nil {
@@ -185,10 +207,13 @@ func verifC02NativeFormat() {
 			panic(err)
 		}
 	}
-	must(os.MkdirAll(filepath.Join(tmp, ".github", "workflows"), 0o755))
-	must(os.MkdirAll(filepath.Join(tmp, ".git"), 0o755))
+	for _, r := range []string{"r", "s"} {
+		must(os.MkdirAll(filepath.Join(tmp, r, ".github", "workflows"), 0o755))
+		must(os.MkdirAll(filepath.Join(tmp, r, ".git"), 0o755))
+	}
+	must(os.WriteFile(filepath.Join(tmp, "r", ".github", "actionlint.yaml"), []byte("paths:\n  .github/workflows/a.yml:\n    ignore:\n      - undefined variable\n"), 0o644))
 	var paths []string
-	for k, name := range []string{"a.yml", "b.yml", "c.yml"} {
+	for k, name := range []string{"r/.github/workflows/a.yml", "r/.github/workflows/c.yml", "s/.github/workflows/b.yml"} {
 		src := "on: push\njobs:\n"
 		n := 1
 		if k == 0 {
@@ -198,9 +223,24 @@ func verifC02NativeFormat() {
 			src += "  j" + strconv.Itoa(j) + ":\n    runs-on: ubuntu-latest\n    steps:\n      - run: echo ${{ github.sha }}\n"
 		}
 		src += "  last:\n    runs-on: ubuntu-latest\n    steps:\n      - run: echo ${{ unknown" + strconv.Itoa(k) + ".x }}\n"
-		p := filepath.Join(tmp, ".github", "workflows", name)
+		p := filepath.Join(tmp, filepath.FromSlash(name))
 		must(os.WriteFile(p, []byte(src), 0o644))
 		paths = append(paths, p)
+	}
+	digest := func(errs []*Error) string {
+		out := ""
+		for _, e := range errs {
+			out += filepath.Base(e.Filepath) + ":" + strconv.Itoa(e.Line) + ": " + e.Message + "\n"
+		}
+		return out
+	}
+	alone := ""
+	for _, p := range paths {
+		l, err := NewLinter(io.Discard, &LinterOptions{})
+		must(err)
+		errs, err := l.LintFile(p, nil)
+		verifCheck(err == nil, "lint-failed")
+		alone += digest(errs)
 	}
 	for rep := 0; rep < 10; rep++ {
 		var buf bytes.Buffer
@@ -208,15 +248,110 @@ func verifC02NativeFormat() {
 		must(err)
 		errs, err := l.LintFiles(paths, nil)
 		verifCheck(err == nil, "lint-failed")
-		want, got := "", ""
-		for _, p := range paths {
-			want += filepath.Base(p) + "\n"
-		}
+		verifCheckf(digest(errs) == alone, "multi-file-result-differs-from-the-files-linted-alone", digest(errs)+" <> "+alone)
+		want, got := "c.yml\nb.yml\n", ""
 		for _, ln := range strings.Split(strings.TrimSuffix(buf.String(), "\n"), "\n") {
 			got += filepath.Base(ln) + "\n" // the printed path is relative to the working directory
 		}
-		verifCheckf(len(errs) == 3, "returned-diagnostics-depend-on-goroutine-completion-order", strconv.Itoa(len(errs)))
 		verifCheckf(got == want, "formatted-output-depends-on-goroutine-completion-order", buf.String())
 	}
 	verifReach("compared")
+}
+
+// verifPrintedLines: the lines the real PrettyPrint writes (no source), colours on or off.
+func verifPrintedLines(errs []*Error, colour bool) []string {
+	old := color.NoColor
+	color.NoColor = !colour
+	defer func() { color.NoColor = old }()
+	var buf bytes.Buffer
+	for _, e := range errs {
+		e.PrettyPrint(&buf, nil)
+	}
+	out := strings.Split(buf.String(), "\n")
+	if len(out) > 0 && out[len(out)-1] == "" {
+		out = out[:len(out)-1]
+	}
+	return out
+}
+// verifC02NativeSharedDefect: two real files of one repository use the same broken local
+// action; 200 runs with 1, 2 and all processors: the returned list must always be the same.
+func verifC02NativeSharedDefect() {
+	tmp, err := os.MkdirTemp("", "verif-c02s-")
+	if err != nil {
+		panic(err)
+	}
+	defer os.RemoveAll(tmp)
+	must := func(err error) {
+		if err != nil {
+			panic(err)
+		}
+	}
+	must(os.MkdirAll(filepath.Join(tmp, ".github", "workflows"), 0o755))
+	must(os.MkdirAll(filepath.Join(tmp, ".git"), 0o755))
+	must(os.MkdirAll(filepath.Join(tmp, "broken"), 0o755))
+	must(os.WriteFile(filepath.Join(tmp, "broken", "action.yml"), []byte("name: act\nruns:\n  using: node20\n  main: [\n"), 0o644))
+	wf := "on: push\njobs:\n  j:\n    runs-on: ubuntu-latest\n    steps:\n      - uses: ./broken\n"
+	var paths []string
+	for _, n := range []string{"a.yml", "b.yml"} {
+		p := filepath.Join(tmp, ".github", "workflows", n)
+		must(os.WriteFile(p, []byte(wf), 0o644))
+		paths = append(paths, p)
+	}
+	defer runtime.GOMAXPROCS(runtime.GOMAXPROCS(0))
+	first := ""
+	for rep := 0; rep < 200; rep++ {
+		runtime.GOMAXPROCS([]int{1, 2, runtime.NumCPU()}[rep%3])
+		l, err := NewLinter(io.Discard, &LinterOptions{})
+		must(err)
+		errs, err := l.LintFiles(paths, nil)
+		verifCheck(err == nil, "lint-failed")
+		out := ""
+		for _, e := range errs {
+			out += filepath.Base(e.Filepath) + ":" + strconv.Itoa(e.Line) + ": " + e.Kind + "\n"
+		}
+		if rep == 0 {
+			first = out
+			verifCheck(len(errs) > 0, "baseline-lost-its-diagnostics")
+		}
+		if out != first {
+			verifCheckf(false, "shared-defect-reported-by-whichever-file-reaches-it-first", first+" <> "+out)
+			break
+		}
+	}
+}
+
+// verifC02NativeRepeat: the same on a real tree.
+func verifC02NativeRepeat(wf string) {
+	tmp, err := os.MkdirTemp("", "verif-c02r-")
+	if err != nil {
+		panic(err)
+	}
+	defer os.RemoveAll(tmp)
+	must := func(err error) {
+		if err != nil {
+			panic(err)
+		}
+	}
+	must(os.MkdirAll(filepath.Join(tmp, ".github", "workflows"), 0o755))
+	must(os.MkdirAll(filepath.Join(tmp, ".git"), 0o755))
+	must(os.MkdirAll(filepath.Join(tmp, "broken"), 0o755))
+	must(os.WriteFile(filepath.Join(tmp, "broken", "action.yml"), []byte("name: act\nruns:\n  using: node20\n  main: [\n"), 0o644))
+	p := filepath.Join(tmp, ".github", "workflows", "a.yml")
+	must(os.WriteFile(p, []byte(wf), 0o644))
+	l, err := NewLinter(io.Discard, &LinterOptions{})
+	must(err)
+	digest := func(errs []*Error, err error) string {
+		verifCheck(err == nil, "lint-failed")
+		out := ""
+		for _, e := range errs {
+			out += strconv.Itoa(e.Line) + ":" + strconv.Itoa(e.Column) + ": " + e.Kind + "\n"
+		}
+		return out
+	}
+	r0 := digest(l.LintFile(p, nil))
+	r1 := digest(l.LintFiles([]string{p}, nil))
+	r2 := digest(l.LintFile(p, nil))
+	verifReach("compared")
+	verifCheck(len(r0) > 0, "baseline-lost-its-diagnostics")
+	verifCheckf(r0 == r1 && r0 == r2, "result-depends-on-how-many-times-the-run-is-repeated", r0+" <> "+r1+" <> "+r2)
 }
